@@ -256,8 +256,22 @@ class IntroducerClient(service.Service, Referenceable):
                          parent=lp, level=log.WEIRD, umid="ZAU15Q")
                 # process other announcements that arrived with the bad one
                 continue
+            except Exception as e:
+                # unsigned, unknown key or signature format, malformed
+                # encoding, not JSON: likewise, reject only this one
+                self.log("unusable inbound announcement (%s: %s): %s"
+                         % (e.__class__.__name__, e, ann_t),
+                         parent=lp, level=log.WEIRD, umid="Vf3kQw")
+                continue
 
-            self._process_announcement(ann, key_s)
+            try:
+                self._process_announcement(ann, key_s)
+            except Exception as e:
+                # properly signed, but not a well-formed announcement
+                self.log("could not process inbound announcement (%s: %s): %s"
+                         % (e.__class__.__name__, e, ann_t),
+                         parent=lp, level=log.WEIRD, umid="Vf4mRx")
+                continue
 
     def _process_announcement(self, ann, key_s):
         precondition(isinstance(key_s, bytes), key_s)
